@@ -4,11 +4,13 @@
 package net
 
 import (
+	"context"
 	"crypto/tls"
 	"encoding/json"
 	"errors"
 	"fmt"
 	"io"
+	"log/slog"
 	stdnet "net"
 	"os"
 	"strings"
@@ -713,6 +715,48 @@ loop:
 	return nil
 }
 
+// ---- failed dials, as the stream writer logs them (slog.Error "net.Dial" / "tls.Dial", attr "remote")
+
+type dialLogHandler struct {
+	next slog.Handler
+}
+
+var (
+	dialMu    sync.Mutex
+	dialFails = map[string]int{}
+	dialOnce  sync.Once
+)
+
+func (h dialLogHandler) Enabled(ctx context.Context, l slog.Level) bool { return true }
+func (h dialLogHandler) Handle(ctx context.Context, r slog.Record) error {
+	if r.Message == "net.Dial" || r.Message == "tls.Dial" {
+		r.Attrs(func(a slog.Attr) bool {
+			if a.Key == "remote" {
+				dialMu.Lock()
+				dialFails[a.Value.String()]++
+				dialMu.Unlock()
+				return false
+			}
+			return true
+		})
+	}
+	if h.next.Enabled(ctx, r.Level) {
+		return h.next.Handle(ctx, r)
+	}
+	return nil
+}
+func (h dialLogHandler) WithAttrs(a []slog.Attr) slog.Handler {
+	return dialLogHandler{h.next.WithAttrs(a)}
+}
+func (h dialLogHandler) WithGroup(n string) slog.Handler { return dialLogHandler{h.next.WithGroup(n)} }
+
+func dialFailures(addr string) int {
+	dialOnce.Do(func() { slog.SetDefault(slog.New(dialLogHandler{slog.Default().Handler()})) })
+	dialMu.Lock()
+	defer dialMu.Unlock()
+	return dialFails[addr]
+}
+
 // runLate: the address refuses the first connection attempts and accepts later ones (a peer that
 // comes up while the writer is still trying).  The address is a small forwarder owned by the harness,
 // which counts the connections it accepted and passes them on to the real peer: whether an attempt
@@ -770,12 +814,17 @@ func runLate(c UCase) error {
 			mu.Unlock()
 		}
 	}, "t", actor.WithID("0"))
+	dialFailures(front) // (installs the log tap)
 	tpid := actor.NewPID(front, "t/0")
 	for i := 0; i < c.K; i++ {
 		a.Send(tpid, &remote.TestMessage{Data: []byte(fmt.Sprintf("0:%d:msg", i))})
 	}
-	// the first attempts have been refused by now or are refused in a moment; bring the forwarder up
-	time.Sleep(150 * time.Millisecond)
+	// bring the forwarder up once the writer has been refused (it logs every failed dial; the writer
+	// tries twice at once and a third time a second later).  The log only decides WHEN the forwarder
+	// comes up; whether an attempt got through afterwards is counted by the forwarder itself.
+	for t0 := time.Now(); dialFailures(front) < 1 && time.Since(t0) < 700*time.Millisecond; {
+		time.Sleep(2 * time.Millisecond)
+	}
 	release()
 	l, err := stdnet.Listen("tcp", front)
 	if err != nil {
@@ -810,6 +859,18 @@ func runLate(c UCase) error {
 		}
 		cond.Wait()
 	}
+	if unreach > 0 && accepted.Load() == 0 {
+		// a connection that was established sits in the listener's backlog until the forwarder's
+		// goroutine gets to Accept it: let it (the count decides, not the pause)
+		mu.Unlock()
+		for t0 := time.Now(); accepted.Load() == 0 && time.Since(t0) < 500*time.Millisecond; {
+			time.Sleep(5 * time.Millisecond)
+		}
+		mu.Lock()
+	}
+	if os.Getenv("VERIF_DEBUG") != "" {
+		fmt.Fprintf(os.Stderr, "late episode %s: unreach=%d accepted=%d got=%d dls=%d dialfails=%d\n", front, unreach, accepted.Load(), len(got), dls, dialFailures(front))
+	}
 	if unreach > 0 {
 		if n := accepted.Load(); n > 0 {
 			return fmt.Errorf("%s refused the first connection attempts and accepted a later one (the forwarder in front of the peer took %d connection(s)); the writer reported the address unreachable all the same: %d of %d messages arrived, %d DeadLetterEvents", front, n, len(got), c.K, dls)
@@ -829,7 +890,7 @@ func runLate(c UCase) error {
 
 func TestUnreachable(t *testing.T) {
 	st := vh.Test("TestUnreachable")
-	n := 6
+	n := 9
 	if vh.Tier() == "thorough" {
 		n = 18
 	}
@@ -845,7 +906,7 @@ func TestUnreachable(t *testing.T) {
 		case i%6 == 4:
 			cases[i].Peer = "stranger"
 			cases[i].TLS = true
-		case i%6 == 5:
+		case i%3 == 2:
 			cases[i].Peer = "late"
 		}
 	}
